@@ -771,6 +771,9 @@ pub fn run_history(rng : &mut Rng, run : &mut HistRun, prop : &str, tally : &mut
                                 match obs.after.inode(t)
                                 {
                                     Some(i) if i.data == *bytes && i.exec == *exec => {},
+                                    Some(i) if i.data == *bytes && cleaned.iter().any(|(t2, (b2, x2))| t2 != t && b2 == bytes && *x2 == i.exec) =>
+                                        v.push(Violation::new("C10", "exec-bit-taken-from-byte-identical-twin",
+                                            format!("after clean+build target {} has exec={} instead of {}: another cleaned target held the same bytes {:?} with the other permission, and one cache entry served both", t, i.exec, exec, crate::verif::util::show_bytes(bytes)))),
                                     Some(i) => v.push(Violation::new("C10", "target-not-restored-identically",
                                         format!("after clean+build target {} is ({:?}, exec={}) instead of ({:?}, exec={})", t,
                                             crate::verif::util::show_bytes(&i.data), i.exec, crate::verif::util::show_bytes(bytes), exec))),
